@@ -474,6 +474,117 @@ func writesThroughParam(cal *ssa.Function, args []ssa.Value, arg ssa.Value) bool
 	return false
 }
 
+// writersObligations: for every `writers` clause of the property, scan the SSA of the whole
+// repository: a Store through (an address derived from) the field, or any other use of the
+// field's address than loading from it, is allowed only in the listed functions.
+func (p *Program) writersObligations(prop string) []*Oblig {
+	var out []*Oblig
+	for _, ws := range p.cs.Writers {
+		has := false
+		for _, pr := range ws.Props {
+			if pr == prop {
+				has = true
+			}
+		}
+		if !has {
+			continue
+		}
+		allowed := map[string]bool{}
+		for _, f := range ws.Funcs {
+			allowed[ws.Pkg+"."+f] = true
+		}
+		name := fmt.Sprintf("%s.%s.%s#writers", ws.Pkg, ws.Type, ws.Field)
+		o := &Oblig{Name: name, Kind: "writers", Status: "unsat", Solver: "ssa-scan", Props: []string{prop}, Pos: ws.Line}
+		found := false
+		var bad []string
+		var fns []*ssa.Function
+		for _, fn := range p.funcs {
+			fns = append(fns, fn)
+		}
+		sort.Slice(fns, func(i, j int) bool { return fullKey(fns[i]) < fullKey(fns[j]) })
+		isField := func(v ssa.Value) bool {
+			fa, ok := v.(*ssa.FieldAddr)
+			if !ok {
+				return false
+			}
+			pt, ok := fa.X.Type().Underlying().(*types.Pointer)
+			if !ok {
+				return false
+			}
+			nt, ok := pt.Elem().(*types.Named)
+			if !ok || nt.Obj().Name() != ws.Type || nt.Obj().Pkg() == nil || shortPkg(nt.Obj().Pkg().Path()) != ws.Pkg {
+				return false
+			}
+			st, ok := nt.Underlying().(*types.Struct)
+			return ok && fa.Field < st.NumFields() && st.Field(fa.Field).Name() == ws.Field
+		}
+		var derived func(v ssa.Value, d int) bool
+		derived = func(v ssa.Value, d int) bool {
+			if d > 20 {
+				return false
+			}
+			if isField(v) {
+				return true
+			}
+			switch x := v.(type) {
+			case *ssa.FieldAddr:
+				return derived(x.X, d+1)
+			case *ssa.IndexAddr:
+				return derived(x.X, d+1)
+			}
+			return false
+		}
+		for _, fn := range fns {
+			key := fullKey(fn)
+			// closures are attributed to their enclosing function
+			for pf := fn; pf != nil; pf = pf.Parent() {
+				key = fullKey(pf)
+			}
+			for _, b := range fn.Blocks {
+				for _, in := range b.Instrs {
+					if v, ok := in.(ssa.Value); ok && isField(v) {
+						found = true
+					}
+					viol := ""
+					switch x := in.(type) {
+					case *ssa.Store:
+						if derived(x.Addr, 0) {
+							viol = "writes"
+						} else if derived(x.Val, 0) {
+							viol = "stores the address of"
+						}
+					case *ssa.UnOp, *ssa.FieldAddr, *ssa.IndexAddr, *ssa.DebugRef:
+					default:
+						for _, op := range in.Operands(nil) {
+							if *op != nil && derived(*op, 0) {
+								viol = "lets escape the address of"
+							}
+						}
+					}
+					if viol != "" && !allowed[key] && !(fn.Name() == "init" || strings.HasPrefix(fn.Name(), "init#")) {
+						bad = append(bad, fmt.Sprintf("%s %s %s.%s at %s", fullKey(fn), viol, ws.Type, ws.Field, p.fset.Position(in.Pos())))
+					}
+				}
+			}
+		}
+		if !found {
+			o.Status = "sat"
+			o.Output = fmt.Sprintf("no access to %s.%s found at all: the writers clause lost its target", ws.Type, ws.Field)
+		} else if len(bad) > 0 {
+			o.Status = "sat"
+			o.Output = "field written outside its declared writers: " + strings.Join(bad, "; ")
+		}
+		for _, f := range ws.Funcs {
+			if p.funcs[ws.Pkg+"."+f] == nil {
+				o.Status = "sat"
+				o.Output += fmt.Sprintf(" declared writer %s does not exist;", f)
+			}
+		}
+		out = append(out, o)
+	}
+	return out
+}
+
 func (p *Program) groundObligations(verif, prop, tier string) []*Oblig {
 	var out []*Oblig
 	if p.groundErr != nil {
